@@ -28,13 +28,11 @@ Lemma wrap_witness :
   simple_code 64 64 pzero (bofZ 1) (bofZ 1) = None.
 Proof. split; vm_compute; reflexivity. Qed.
 
-(* SAR, bits = 54, vmax = 1: any voltage >= vmax accumulates 2^54 *)
-Lemma sar_exceed_witness : sar_code 64 54 (bofZ 1) (bofZ 2) = Some (2 ^ 54).
+(* SAR at the resolutions where the float accumulator used to fail (repaired: integer accumulator) *)
+Lemma sar_full_scale_54 : sar_code 64 54 (bofZ 1) (bofZ 2) = Some (2 ^ 54 - 1).
 Proof. vm_compute. reflexivity. Qed.
 
-(* SAR, bits = 64: the first digital value is -2^63 (int64 wrap), so codes with the top bit set are
-   produced by casting a negative double to uint64, which is undefined *)
-Lemma sar64_undefined_witness : sar_code 64 64 (bofZ 1) (mk 3 (-2)) = None.
+Lemma sar_top_bit_64 : sar_code 64 64 (bofZ 1) (mk 3 (-2)) = Some (2 ^ 63 + 2 ^ 62).
 Proof. vm_compute. reflexivity. Qed.
 
 (* non-vacuity / sanity: ordinary settings behave as documented *)
